@@ -74,6 +74,7 @@ impl<TX> SendControler<TX> {
 
     fn revise_max_data(&mut self, zero_rtt_rejected: bool, max_data: u64) {
         if zero_rtt_rejected {
+            self.sent_data = 0;
             self.max_data = 0;
             self.flow_limited = false;
         }
